@@ -81,6 +81,15 @@ def main() -> None:
         cfg = Cfg(max_depth=2 if small else 3, max_block=2 if small else 4, max_routines=2 if small else 3,
                   small_alphabet=r.random() < 0.3)
         progs.append((f"random:{run.seed}:{i}", Gen(r, cfg).program()))
+    # random programs in which return / end / hold also stand as the statement of a with-block (the context op stands in
+    # front; the operand never ends the routine, so what follows the with-block is reachable), at any place of any block
+    for i in range(400 if run.tier == "quick" else 5000):
+        r = random.Random(f"C01-withterm-{run.seed}-{i}")
+        cfg = Cfg(max_depth=2 if r.random() < 0.7 else 3, max_block=3, max_routines=2, small_alphabet=r.random() < 0.3, ctx_term=True)
+        progs.append((f"random-with-terminator:{run.seed}:{i}", Gen(r, cfg).program()))
+    # a routine of nothing but labels (repaired: it compiled to a routine without ops)
+    progs.append(("shape:labels-only", [A("prog"), [], [[A("routine"), 0, A("generic"), None, None, False, [[A("label"), "only"], [A("label"), "two"]]],
+                                                        [A("routine"), 1, A("generic"), None, None, False, [[A("jump"), "only"]]]]]))
     # directed: jumps, calls and loop / case control as the statement of a with-block (the context op stands in front of
     # the Jump / Call op); inside macros the labels are private and return leaves the expansion
     directed = [
